@@ -178,6 +178,9 @@ class MirrorAlign(Stream):
     def impl(self, case):
         return dict(a=pl.run_align(case), b=pl.run_align(mirror_case(case)))
 
+    def tolerated(self, case, out):
+        return bool(out.get('a', {}).get('float_flip') or out.get('b', {}).get('float_flip'))
+
     def term(self, case, out):
         return '(%s, %s)' % (pl.align_term(case, out['a']), pl.align_term(mirror_case(case), out['b']))
 
